@@ -239,7 +239,7 @@ class V3Agent(Agent):
         self.stats = {k: 0 for k in usm.USM_STATS}
         self.msg_hook = None  # (agent, req_msg, dict(msg_id=..)) -> dict
         self.max_size = 65507
-        self.time_skew = 0  # added to the engine time put into responses
+        self.time_skew = 0  # added to the engine time put into Response messages (not Reports)
 
     @property
     def engine_time(self):
@@ -261,10 +261,10 @@ class V3Agent(Agent):
         user = level_user.name if level_user else req["usm"]["user"]
         return self._wrap(req, pdu, level_user, 1 if level_user else 0, user, req.get("scoped", {}).get("context_engine_id", self.engine_id), req.get("scoped", {}).get("context_name", b""))
 
-    def _wrap(self, req, pdu_node, user, level, user_name, ctx_engine, ctx_name, msg_id=None):
+    def _wrap(self, req, pdu_node, user, level, user_name, ctx_engine, ctx_name, msg_id=None, skew=0):
         usm = self.usm
         fields = {"msg_id": req["msg_id"] if msg_id is None else msg_id, "flags": level, "engine_id": self.engine_id,
-                  "boots": self.boots, "time": self.engine_time + self.time_skew, "user": user_name}
+                  "boots": self.boots, "time": self.engine_time + skew, "user": user_name}
         if self.msg_hook is not None:
             fields = self.msg_hook(self, req, fields)
         scoped = snmp.scoped_pdu_node(ctx_engine, ctx_name, pdu_node)
@@ -359,5 +359,5 @@ class V3Agent(Agent):
             resp = self.process_pdu(pdu, 1, entry)
         except Drop as d:
             return finish("dropped: %s" % d, None)
-        out = self._wrap(msg, self.pdu_to_node(resp), user, level, user.name, scoped["context_engine_id"], scoped["context_name"], msg_id=resp.get("msg_id"))
+        out = self._wrap(msg, self.pdu_to_node(resp), user, level, user.name, scoped["context_engine_id"], scoped["context_name"], msg_id=resp.get("msg_id"), skew=self.time_skew)
         return finish("ok", out)
